@@ -481,7 +481,7 @@ theorem poolOf_mem {pools : List (String × List String)} {td : String} {roots :
     SAN values of that leaf. -/
 theorem tls_cert_root_scoped {pools : List (String × List String)} {peer : Option (PLeaf × List CACert)} {c : Caller}
     (h : tlsCertAuthenticate pools peer = some (.ok c)) :
-    ∃ leaf ints u td ns sa roots, peer = some (leaf, ints) ∧ leaf.uris = [u] ∧ parseIdentity u = some (td, ns, sa) ∧
+    ∃ leaf ints u td ns sa roots, peer = some (leaf, ints) ∧ leaf.uris = [u] ∧ parseIdentity (urlString u) = some (td, ns, sa) ∧
       poolOf pools td = some roots ∧ chainsTo roots ints (ints.length + 1) leaf.issuer = true ∧
       leaf.timeOk = true ∧ c.identities = leaf.values := by
   unfold tlsCertAuthenticate at h
@@ -516,14 +516,14 @@ theorem tls_cert_root_scoped {pools : List (String × List String)} {peer : Opti
 /-- A certificate whose issuer chain does not reach a root registered for the trust domain of its own
     URI SAN is refused at the handshake - even if it chains to a root of ANOTHER trust domain. -/
 theorem tls_foreign_root_rejected (pools : List (String × List String)) (leaf : PLeaf) (ints : List CACert)
-    (u td ns sa : String) (roots : List String) (hu : leaf.uris = [u]) (hp : parseIdentity u = some (td, ns, sa))
+    (u td ns sa : String) (roots : List String) (hu : leaf.uris = [u]) (hp : parseIdentity (urlString u) = some (td, ns, sa))
     (hpool : poolOf pools td = some roots) (hno : chainsTo roots ints (ints.length + 1) leaf.issuer = false) :
     tlsCertAuthenticate pools (some (leaf, ints)) = none := by
   simp [tlsCertAuthenticate, tlsAccepts, verifyPeerCert, hu, hp, hpool, x509Verify, hno]
 
 /-- No pool for the certificate's trust domain, or not exactly one URI SAN: refused. -/
 theorem tls_unknown_trust_domain_rejected (pools : List (String × List String)) (leaf : PLeaf) (ints : List CACert)
-    (u td ns sa : String) (hu : leaf.uris = [u]) (hp : parseIdentity u = some (td, ns, sa)) (hpool : poolOf pools td = none) :
+    (u td ns sa : String) (hu : leaf.uris = [u]) (hp : parseIdentity (urlString u) = some (td, ns, sa)) (hpool : poolOf pools td = none) :
     tlsCertAuthenticate pools (some (leaf, ints)) = none := by
   simp [tlsCertAuthenticate, tlsAccepts, verifyPeerCert, hu, hp, hpool]
 
@@ -554,7 +554,10 @@ example :
     tlsCertAuthenticate [("td1", ["R1"]), ("td2", ["R2"])]
       (some ({ issuer := "I1", sans := [("U", "spiffe://td1/ns/a/sa/b"), ("D", "foo.com")] }, [{ name := "I1", issuer := "R1" }])) =
       some (.ok { identities := ["spiffe://td1/ns/a/sa/b", "foo.com"] }) ∧
-    tlsCertAuthenticate [("td1", ["R1"])] none = some .err := by decide
+    tlsCertAuthenticate [("td1", ["R1"])] none = some .err ∧
+    -- the verifier sees the URI with its scheme lower-cased; the identity keeps the raw string
+    tlsCertAuthenticate [("td1", ["R1"])] (some ({ issuer := "R1", sans := [("U", "SPIFFE://td1/ns/a/sa/b")] }, [])) =
+      some (.ok { identities := ["SPIFFE://td1/ns/a/sa/b"] }) := by decide
 
 /-! ### Non-vacuity -/
 
